@@ -25,6 +25,9 @@ pub enum TokSpec {
     OtherIp,
     Random20(u64),
     Len(u8),
+    /// the right token followed by extra bytes / cut to a prefix (wrong length, must be refused)
+    RightPlus(u8),
+    RightPrefix(u8),
 }
 
 #[derive(Clone, Debug, Serialize, Deserialize)]
@@ -139,7 +142,7 @@ fn inj() -> impl Strategy<Value = Inj> {
         (id20(), prop::bool::weighted(0.2)).prop_map(|(target, own)| QKind::FindNode { target, own }),
         (0u8..HASHES as u8).prop_map(|hash| QKind::GetPeers { hash }),
         (0u8..HASHES as u8, proptest::option::of(any::<u16>()),
-         prop_oneof![4 => Just(TokSpec::Right), 1 => Just(TokSpec::OtherIp), 1 => any::<u64>().prop_map(TokSpec::Random20), 1 => (0u8..=40).prop_map(TokSpec::Len)])
+         prop_oneof![4 => Just(TokSpec::Right), 1 => Just(TokSpec::OtherIp), 1 => any::<u64>().prop_map(TokSpec::Random20), 1 => (0u8..=40).prop_map(TokSpec::Len), 1 => (1u8..24).prop_map(TokSpec::RightPlus), 1 => (0u8..20).prop_map(TokSpec::RightPrefix)])
             .prop_map(|(hash, port, token)| QKind::Announce { hash, port, token }),
     ];
     let unknown = proptest::option::weighted(0.2, ("[b-z]{1,2}[0-9]", btree(3)));
@@ -450,6 +453,21 @@ impl Stage for Replies {
                                         }
                                         (t, Some(false))
                                     }
+                                    TokSpec::RightPlus(_) | TokSpec::RightPrefix(_) => {
+                                        cx.special += 1;
+                                        if cx.serving && !cx.tokens.contains_key(&src.ip()) {
+                                            if let Err(e) = cx.query(src, KQuery::GetPeers { id: my_id.clone(), info_hash: hash_n(*hash).to_vec(), want: KWant::Absent }, vec![b'h', n as u8], false, &None, 0, None).await {
+                                                return fail(n, e);
+                                            }
+                                        }
+                                        let mut t = cx.tokens.get(&src.ip()).cloned().unwrap_or_else(|| vec![3u8; 20]);
+                                        match token {
+                                            TokSpec::RightPlus(k) => t.extend(std::iter::repeat(0x2a).take(*k as usize)),
+                                            TokSpec::RightPrefix(k) => t.truncate(*k as usize),
+                                            _ => unreachable!(),
+                                        }
+                                        (t, Some(false))
+                                    }
                                     TokSpec::Len(l) => {
                                         cx.special += 1;
                                         if *l == 20 {
@@ -513,7 +531,7 @@ impl Stage for Replies {
         })
     }
     fn rule(&self) -> String {
-        "one real node (serving 80% / read-only; v4 or v6; bootstrapping against 0..12 scripted contacts of either family, 40% silent; store pre-filled with 0..20 announced peers) receives 5..40 injected datagrams from contacts' and strangers' addresses of both families: well-formed queries (all four kinds, want absent/n4/n6/both, explicit/implied port, token right/other-IP/random/wrong length, tid 0..32 B or copied from a datagram the node itself just sent to that address, optional unknown key, shuffled keys) interleaved with responses, errors, garbage, truncated and unknown-method queries, with gaps 0..8 s. Oracle per datagram from the wire log of the same virtual millisecond. Non-trivial: >=3 query kinds, >=1 non-query, and >=1 of {non-8-byte tid, want list, bad token, echoed tid}".into()
+        "one real node (serving 80% / read-only; v4 or v6; bootstrapping against 0..12 scripted contacts of either family, 40% silent; store pre-filled with 0..20 announced peers) receives 5..40 injected datagrams from contacts' and strangers' addresses of both families: well-formed queries (all four kinds, want absent/n4/n6/both, explicit/implied port, token right/other-IP/random/wrong length/right token with extra bytes or cut short, tid 0..32 B or copied from a datagram the node itself just sent to that address, optional unknown key, shuffled keys) interleaved with responses, errors, garbage, truncated and unknown-method queries, with gaps 0..8 s. Oracle per datagram from the wire log of the same virtual millisecond. Non-trivial: >=3 query kinds, >=1 non-query, and >=1 of {non-8-byte tid, want list, bad token, echoed tid}".into()
     }
     fn sample(&self, c: &Case) -> serde_json::Value {
         serde_json::json!({"v6": c.v6, "read_only": c.read_only, "contacts": c.contacts.len(), "store": c.store.len(), "dgrams": c.dgrams.iter().take(4).map(|d| format!("{d:?}")).collect::<Vec<_>>(), "n_dgrams": c.dgrams.len()})
